@@ -312,3 +312,95 @@ def unit_angles(tier="quick", seed=0):
         o["model"] = dict(case=fails[0][0], observed=fails[0][1], n_failing=len(fails))
         o["replayed"] = f"{len(fails)} of {n} angles fail; first {fails[0][0]}: {fails[0][1]}"
     return dict(status="ok", obligations=[o], summary=f"rotation gates at {n} concrete angles")
+
+
+def unit_composed(tier="quick", seed=0):
+    """C13, native floats: gates placed one after another on a larger register with Circuit.add (heralded gates leave ancilla modes behind that later
+    placements must step over; the converter builds its circuits the same way): the dual-rail action of the whole is one scalar times the product of the
+    named matrices, each on the qubits it was placed on."""
+    import numpy as np
+    import lightworks as lw
+    from lightworks import qubit
+    env = Env("native")
+    fails, n = [], 0
+    I2 = np.identity(2)
+    X = np.array([[0, 1], [1, 0]], dtype=complex)
+    H = np.array([[1, 1], [1, -1]], dtype=complex) / np.sqrt(2)
+
+    def rx(t):
+        return np.array([[np.cos(t / 2), -1j * np.sin(t / 2)], [-1j * np.sin(t / 2), np.cos(t / 2)]])
+
+    def on(nq, q, G):           # single-qubit matrix on qubit q of nq (qubit 0 = most significant bit of the basis index, as in basis())
+        out = np.array([[1]], dtype=complex)
+        for k in range(nq):
+            out = np.kron(out, G if k == q else I2)
+        return out
+
+    def cnot(nq, ctrl, tgt):
+        d = 2 ** nq
+        M = np.zeros((d, d), dtype=complex)
+        for i, bits in enumerate(basis(nq)):
+            b = list(bits)
+            if b[ctrl]:
+                b[tgt] ^= 1
+            M[list(basis(nq)).index(tuple(b)), i] = 1
+        return M
+
+    def cz(nq, a, b_):
+        d = 2 ** nq
+        M = np.identity(d, dtype=complex)
+        for i, bits in enumerate(basis(nq)):
+            if bits[a] and bits[b_]:
+                M[i, i] = -1
+        return M
+    cases = [
+        ("CNOT_Heralded@0, CNOT_Heralded@2, Rx(0.9)@4", 3, [(lambda: qubit.CNOT_Heralded(), 0), (lambda: qubit.CNOT_Heralded(), 2), (lambda: qubit.Rx(0.9), 4)],
+         lambda: on(3, 2, rx(0.9)) @ cnot(3, 1, 2) @ cnot(3, 0, 1)),
+        ("CNOT_Heralded@2, CNOT_Heralded@0, X@2", 3, [(lambda: qubit.CNOT_Heralded(), 2), (lambda: qubit.CNOT_Heralded(), 0), (lambda: qubit.X(), 2)],
+         lambda: on(3, 1, X) @ cnot(3, 0, 1) @ cnot(3, 1, 2)),
+        ("CZ_Heralded@0, H@2, CZ_Heralded@0, H@0", 2, [(lambda: qubit.CZ_Heralded(), 0), (lambda: qubit.H(), 2), (lambda: qubit.CZ_Heralded(), 0), (lambda: qubit.H(), 0)],
+         lambda: on(2, 0, H) @ cz(2, 0, 1) @ on(2, 1, H) @ cz(2, 0, 1)),
+        ("CNOT_Heralded(target 0)@2, H@4, CNOT_Heralded@0, Rx(0.4)@2", 3,
+         [(lambda: qubit.CNOT_Heralded(target_qubit=0), 2), (lambda: qubit.H(), 4), (lambda: qubit.CNOT_Heralded(), 0), (lambda: qubit.Rx(0.4), 2)],
+         lambda: on(3, 1, rx(0.4)) @ cnot(3, 0, 1) @ on(3, 2, H) @ cnot(3, 2, 1)),
+    ]
+    for label, nq, placements, ref in cases:
+        n += 1
+        try:
+            c = lw.Circuit(2 * nq)
+            for mk, mode in placements:
+                c.add(mk(), mode)
+            M, _ = gate_matrix(env, c, nq)
+            B = list(basis(nq))
+            A = np.array([[M[(bo, bi)] for bi in B] for bo in B], dtype=complex)
+            R = ref()
+            i, j = np.unravel_index(np.argmax(np.abs(R)), R.shape)
+            sc = A[i, j] / R[i, j]
+            if abs(sc) < 1e-9 or np.abs(A - sc * R).max() > 1e-9:
+                fails.append((dict(sequence=label), f"the composed circuit does not act as a scalar times the product of the named gates (max deviation {np.abs(A - sc * R).max():.3f}, scalar {abs(sc):.4f})"))
+        except Exception as e:  # noqa: BLE001
+            fails.append((dict(sequence=label), f"raised {type(e).__name__}: {e}"))
+    # the three-qubit gates reached through the qiskit converter: every control / target order of ccx (the target is the LAST argument) and ccz; a refusal is
+    # allowed, a circuit for another target is not
+    try:
+        import itertools
+        from vf.tasks.t_qiskit import check_program
+        for perm_ in itertools.permutations(range(3)):
+            for g in ("ccx", "ccz"):
+                n += 1
+                prog = [("h", (perm_[0],), ()), ("ry", (perm_[1],), (0.7,)), (g, tuple(perm_), ()), ("t", (perm_[2],), ())]
+                try:
+                    msg, status = check_program(prog, 3, True)
+                except Exception as e:  # noqa: BLE001
+                    msg = f"raised {type(e).__name__}: {e}"
+                if msg:
+                    fails.append((dict(sequence=f"qiskit {g}{perm_}"), msg))
+    except ImportError:
+        pass
+    o = dict(name="lightworks/qubit/gates:composed-gates#bnd.product-of-named-matrices", kind="bnd", cases=n, result="bounded-fail" if fails else "bounded-pass",
+             backend="native floats (1e-9)", ms=0, note="2-3 heralded two-qubit gates and single-qubit gates placed with Circuit.add on 2-3 qubits: the whole acts as the product of the named matrices")
+    if fails:
+        o["failing_cases"] = [str(f[0]) for f in fails]
+        o["model"] = dict(case=fails[0][0], observed=fails[0][1], n_failing=len(fails))
+        o["replayed"] = f"{len(fails)} of {n} sequences fail; first {fails[0][0]}: {fails[0][1]}"
+    return dict(status="ok", obligations=[o], summary=f"composed gates: {n} sequences")
